@@ -188,6 +188,10 @@ class Check(BaseCheck):
             if got != []:
                 key = 'C19/extract_label:non-label-decomposes' + (':trailing-newline' if s.endswith('\n') and m.LABEL_SHAPED.match(s[:-1]) else '')
                 rec.violation(key, label=s, got=got)
+            elif isinstance(got, list) and j % 5 == 0:
+                # "nothing" is the caller's own nothing: a caller that goes on to use its (empty) result must not change what the next
+                # non-label decomposes to
+                got.append(('mine', s))
             rec.nt(('nonlabel', s))
             rec.sample({'non_label': s})
 
